@@ -117,6 +117,19 @@ def product(a,b):
       potential.deriv2 = deriv2
   return potential
 
+def _power_rule(a, n, da, d2a = None):
+  """First (or, when `d2a` is given, second) derivative of a(r)**n for an exponent n that does not depend on r.
+
+  Terms whose coefficient vanishes are not evaluated, so that (r-1)**2 has derivatives at r = 1."""
+  if d2a is None:
+    return n * a**(n-1) * da if n != 0 else 0.0
+  value = 0.0
+  if n*(n-1) != 0 and da != 0:
+    value += n*(n-1) * a**(n-2) * da * da
+  if n != 0 and d2a != 0:
+    value += n * a**(n-1) * d2a
+  return value
+
 def pow(a,b):
   """Takes two callables and returns a third which when evaluated returns the result of a(r)**b(r)
 
@@ -145,7 +158,12 @@ def pow(a,b):
     deriv_b = gradient(b)
     def deriv(r):
       ar = a(r)
-      return potential(r) * (deriv_b(r) * math.log(ar) + b(r) * deriv_a(r)/ar)
+      db = deriv_b(r)
+      if ar <= 0.0 and db == 0.0:
+        # Exponent that does not vary at r: the power rule applies and no logarithm of the
+        # (here non-positive) base is needed, e.g. pow(as.polynomial -1 1, as.constant 2) at r <= 1.
+        return _power_rule(ar, b(r), deriv_a(r))
+      return potential(r) * (db * math.log(ar) + b(r) * deriv_a(r)/ar)
     potential.deriv = deriv
 
     if hasattr(deriv_a, 'deriv') or hasattr(deriv_b, 'deriv'):
@@ -160,6 +178,10 @@ def pow(a,b):
         db = deriv_b(r)
         d2a = deriv2_a(r)
         d2b = deriv2_b(r)
+
+        if ar <= 0.0 and db == 0.0 and d2b == 0.0:
+          # ... as in deriv(): (a**n)'' = n (n-1) a**(n-2) a'**2 + n a**(n-1) a''
+          return _power_rule(ar, br, da, d2a)
 
         # value = (deriv_b(r)*log(a(r)) + b(r)*deriv_a(r)/a(r))*deriv(r) + (math.log(a(r))*deriv2_b(r) + b(r)*deriv2_a(r)/a(r) + deriv_a(r)*deriv2_b(r)/a(r) + deriv_b(r)*deriv2_a(r)/a(r) - b(r)*deriv_a(r)*deriv2_a(r)/a(r)**2)*potential(r)
         value = (db*math.log(ar) + (br*da)/ar)*dr + (math.log(ar)*d2b + (br*d2a)/ar + (da*db)/ar + (db*da)/ar - (br*da*da)/(ar**2))*p
